@@ -70,6 +70,9 @@ func ParseSecrets(secrets []*big.Int) ([][]*big.Int, error) {
 		}
 		if isLenEl {
 			nextPartLen = secrets[el].Int64()
+			if !secrets[el].IsInt64() || nextPartLen < 0 {
+				return nil, fmt.Errorf("ParseSecrets: invalid commitment part length: part %d", len(parts))
+			}
 			if MaxPartSize < nextPartLen {
 				return nil, fmt.Errorf("ParseSecrets: commitment part too large: part %d, size %d", len(parts), nextPartLen)
 			}
